@@ -7,7 +7,7 @@ per-table lock is taken, and the deletion lock is only acquired at transaction s
 Does not decide: the interleavings themselves (schedule property)."""
 import re
 
-from tmpl import site, start_sites, done_sites, suffix, origin_locals
+from tmpl import site, start_sites, done_sites, suffix, origin_locals, fallible_guards
 from mir import pl_fields
 
 SEC = 'storage::secondary::'
@@ -96,13 +96,9 @@ def run(ctx):
         # (b) validation in delete(): the push into delete_buffer is dominated by a look-up in the snapshot, and an error exit
         #     is reachable from that look-up without passing the push
         push = [c.bb for c in td.calls if re.search(r'Vec::<.*>::push$', c.name or '')]
-        look = [c.bb for c in td.calls if (c.fn or '').endswith('Snapshot::get_rowsets_of')]
-        validated = False
-        if push and look:
-            dom = all(td.dominated_by_any(set(look), p) for p in push)
-            errs = td.error_exit_blocks()
-            esc = any(td.reachable_from([l], avoid=set(push)) & errs for l in look)
-            validated = dom and esc
+        # the look-up may sit in delete() itself or in a helper it calls with `?`
+        look = fallible_guards(prog, td, lambda g, c: (c.fn or '').endswith('Snapshot::get_rowsets_of'), push)
+        validated = bool(push) and bool(look) and all(td.dominated_by_any(set(look), p) for p in push)
         if ctx.anchor(R4, 'SecondaryTransaction::delete: push into delete_buffer', push):
             ctx.ob(R4, 'DELETE·victims-from-own-snapshot', own_scan or validated,
                    f'DeleteExecutor scans through its own transaction: {own_scan}; SecondaryTransaction::delete validates the handler '
@@ -111,13 +107,9 @@ def run(ctx):
                    what='SQL DELETE buffers row handlers taken from a scan that pinned an older snapshot: after a compaction in between '
                         'the delete vectors point at row-sets that are gone and the acknowledged DELETE removes nothing')
             # the same for a row that a concurrent DELETE removed between the child scan's pin and this transaction's pin
-            look2 = [c.bb for c in td.calls if (c.fn or '').endswith('Snapshot::get_dvs_of')]
-            resolves = bool(prog.group_calls(td.root, suffix('VersionManager::get_dv')))
-            alive = False
-            if look2 and resolves:
-                errs = td.error_exit_blocks()
-                alive = all(td.dominated_by_any(set(look2), p) for p in push) and \
-                    any(td.reachable_from([l], avoid=set(push)) & errs for l in look2)
+            look2 = fallible_guards(prog, td, lambda g, c: (c.fn or '').endswith('Snapshot::get_dvs_of'), push)
+            resolves = bool(prog.group_reaches_call(td.root, suffix('VersionManager::get_dv'), 2))
+            alive = bool(look2) and resolves and all(td.dominated_by_any(set(look2), p) for p in push)
             ctx.ob(R4, 'DELETE·victims-alive-in-own-snapshot', own_scan or alive,
                    f'DeleteExecutor scans through its own transaction: {own_scan}; SecondaryTransaction::delete looks the row up in the delete '
                    f'vectors of its snapshot before buffering it (get_dvs_of at {look2}, DV objects resolved: {resolves}, push at {push}): {alive}',
